@@ -14,7 +14,6 @@ mod trace;
 mod util;
 mod world;
 mod world_a;
-#[cfg(feature = "worlds_bcd")]
 mod world_b;
 mod c_gov;
 mod c_group;
